@@ -657,7 +657,9 @@ def sweep_short(full):
                      "jblpatch %s %s" % (hx(doc), h), "jblmerge %s %s" % (hx(doc), h), "jblpatch %s %s" % (h, hx(b"[]"))]
         L += json_like
         if len(t) == 1 or full:
-            L += ["ini " + h, "atoi " + h, "atof " + h, "strtod " + h, "sde " + h, "num " + h, "uuid " + h, "wstrtoll " + h,
+            if t[:1] in (b"-", b".") or t[:1].isdigit() or len(t) == 1:
+                L.append("num " + h)                        # the model of `num` is the number branch only
+            L += ["ini " + h, "atoi " + h, "atof " + h, "strtod " + h, "sde " + h, "uuid " + h, "wstrtoll " + h,
                   "unesc 34 " + h, "re %s 61" % h, "re 61 %s" % h, "split %s 2c 1" % h, "split 612c62 %s 0" % h,
                   "replace %s 61 62" % h, "replace 616261 %s 78" % h, "atoi2 " + h, "afcmp %s 31" % h, "hex2bin %s 4" % h]
     return L
